@@ -89,11 +89,10 @@ class VecComp2(VecMulti):
 
 def _same_scalar(a, b):
     if sym.is_sym(a) or sym.is_sym(b):
-        import z3
+        from vc.discharge import poly, _padd
 
-        d = z3.simplify(sym.SNum.lift(a).t - sym.SNum.lift(b).t)
-        c = sym._const_of(d)
-        return c is not None and c == 0
+        cache = {}
+        return _padd(poly(sym.SNum.lift(a).t, cache), poly(sym.SNum.lift(b).t, cache), -1) == {}
     return a == b
 
 
